@@ -130,6 +130,13 @@ ROWS = {
     "<dashu_int::buffer::Buffer as core::clone::Clone>::clone_from": ("copy of src.len words to ptr", _buffer_clone_from, [CAP]),
     "dashu_int::buffer::Buffer::reallocate_raw": ("realloc to capacity words", _reallocate_raw, []),
 }
+# extent of the copy itself: the count handed to copy_nonoverlapping must be the very quantity the guard
+# bounds (the source's length), and the source pointer must belong to the same source
+COPY_COUNT = {
+    "dashu_int::buffer::Buffer::clone_from_slice": lambda c: is_len_of(c, ('arg', 2)),
+    "dashu_int::buffer::Buffer::push_slice": lambda c: is_len_of(c, ('arg', 2)),
+    "<dashu_int::buffer::Buffer as core::clone::Clone>::clone_from": lambda c: strip_bb(c) == ('place', ('arg', 2), ('*', '.len')),
+}
 RAW_OPS = {"core::ptr::write", "core::ptr::read", "core::ptr::copy", "core::ptr::copy_nonoverlapping",
            "core::ptr::mut_ptr::<impl *mut T>::add", "core::ptr::mut_ptr::<impl *mut T>::sub",
            "core::slice::raw::from_raw_parts", "core::slice::raw::from_raw_parts_mut", "alloc::alloc::realloc",
@@ -179,6 +186,13 @@ def _r17_5(res, P, cfgname):
                          % (opname, path, extent, sorted("%s %s %s" % (sym.term_str(a, 60), o, sym.term_str(b, 60)) for o, a, b in rels)[:6]),
                          span_loc(node.get("sp", "")))
                 continue
+            if opname == "core::ptr::copy_nonoverlapping" and path in COPY_COUNT and node.get("k") == "call":
+                cnt = S.operand(node["a"][2])
+                if not COPY_COUNT[path](cnt):
+                    res.fail("R17.5", cfgname, key + "|count",
+                             "copy_nonoverlapping in %s copies `%s` words, but the guard on this path bounds the source's length: the count must be the guarded quantity (reading past the source / writing past the capacity otherwise)" % (path, sym.term_str(cnt, 60)),
+                             span_loc(node.get("sp", "")))
+                    continue
             res.ok("R17.5", cfgname, key, sample=dict(function=path, op=opname, extent=extent, discharge=reason))
     # form (ii)/(iii) rows: structural equalities between the extent and the allocation / len field
     n += _r17_5_struct(res, P, cfgname)
